@@ -60,4 +60,26 @@ let () =
   register "spec_sort_merge_counts" (function [a; b; c; d] -> of_list of_nn (M.sort_merge_counts_spec (nl a) (nl b) (nl c) (nl d)) | _ -> raise (Parse_error "args"));
   register "spec_as_dense" (function [i; v; n] -> of_nl (M.as_dense_spec (nl i) (nl v) (to_n n)) | _ -> raise (Parse_error "args"))
 
+
+(* ---- C13: codec ---- *)
+let to_nn = to_pair to_n to_n
+let of_groups = of_list (of_pair of_n of_nl)
+let () =
+  register "codec_all" (function [k; p] ->
+      let enc = M.encode (nl k) (nl p) in
+      L [of_nl enc; of_groups (M.decode enc); of_result (of_list of_nn) (M.num_values_per_key enc); (if enc = [] then L [A "done"; L []] else of_result of_nl (M.keys_unique enc))]
+    | _ -> raise (Parse_error "args"));
+  register "spec_codec_all" (function [ps] ->
+      let ps = to_list to_nn ps in
+      L [of_nl (M.encode_spec ps); of_groups (M.group_by_key ps); of_list of_nn (M.counts_spec ps); of_nl (M.keys_spec ps)]
+    | _ -> raise (Parse_error "args"));
+  register "decode" (function [w] -> of_groups (M.decode (nl w)) | _ -> raise (Parse_error "args"));
+  register "codec_slice" (function [k; p; ks] -> of_result of_nl (M.slice_keys (M.encode (nl k) (nl p)) (nl ks)) | _ -> raise (Parse_error "args"));
+  register "spec_codec_slice" (function [ps; ks] -> of_nl (M.slice_spec (to_list to_nn ps) (nl ks)) | _ -> raise (Parse_error "args"));
+  register "codec_bounds" (function [k; p; b] -> of_result (of_pair of_nl of_nl) (M.encode_b (nl k) (nl p) (nl b)) | _ -> raise (Parse_error "args"));
+  register "spec_codec_bounds" (function [segs] -> of_pair of_nl of_nl (M.boundaries_spec (to_list (to_list to_nn) segs)) | _ -> raise (Parse_error "args"));
+  register "slice_range" (function [w; lo; hi] ->
+      (match M.slice_range (nl w) (to_option to_n lo) (to_option to_n hi) with
+       | M.RangeOk ws -> of_nl ws | M.RangeValueError -> L [A "valueerror"]) | _ -> raise (Parse_error "args"))
+
 let () = main ()
